@@ -549,7 +549,7 @@ func text(version string, b *baseEvent, subs []sub, withHash bool) []byte {
 func main() { harness.Main("C18", "model_checking", run) }
 
 func run(r *harness.Run) {
-	r.Rule("(i) for every registered room version and each of 15 valid base events (create, six member shapes, mxid-mapped member, power levels, join rules, third-party invite, aliases, redaction, history visibility, message): every substitution of one member (16 top-level members and every content member the auth / redaction code reads) by every value of its menu (every JSON kind, integers at +-2^53, 2^63, 2^64, fractions, malformed and oversized identifiers, invalid UTF-8), with and without a matching content hash, and every pair of substitutions over reduced menus; each text through NewEventFromUntrustedJSON / TrustedJSON / TrustedJSONWithEventID / EventJSONs.UntrustedEvents, and every accepted event through every PDU accessor, Sign, SetUnsigned, Redact, CheckFields, content parsers, VerifyEventSignatures, StateNeededForAuth, Allowed (as the checked event and as an auth event of 15 valid probes, three sender-resolution behaviours), all three resolvers, topological orderings, VerifyEventAuthChain, CheckStateResponse / CheckSendJoinResponse, HandleSendJoin, HandleInvite, and the fclient response / request unmarshallers. (ii) all byte strings up to a length over token alphabets and all single-byte corruptions of valid texts through CanonicalJSON, EnforcedCanonicalJSON, CompactJSON, SortJSON, VerifyJSON, ListKeyIDs, ServerKeys / CheckKeys, ParseAuthorization, identifier parsers and the event parsers. Oracle: no panic.")
+	r.Rule("(i) for every registered room version and each of 15 valid base events (create, six member shapes, mxid-mapped member, power levels, join rules, third-party invite, aliases, redaction, history visibility, message): every substitution of one member (16 top-level members and every content member the auth / redaction code reads) by every value of its menu (every JSON kind, integers at +-2^53, 2^63, 2^64, fractions, malformed and oversized identifiers, invalid UTF-8), with and without a matching content hash, every pair of substitutions over reduced menus, and every top-level / content member sent twice (the extra copy before or after the genuine one, reduced menus); each text through NewEventFromUntrustedJSON / TrustedJSON / TrustedJSONWithEventID / EventJSONs.UntrustedEvents, and every accepted event through every PDU accessor, Sign, SetUnsigned, Redact, CheckFields, content parsers, VerifyEventSignatures, StateNeededForAuth, Allowed (as the checked event and as an auth event of 15 valid probes, three sender-resolution behaviours), all three resolvers, topological orderings, VerifyEventAuthChain, CheckStateResponse / CheckSendJoinResponse, HandleSendJoin, HandleInvite, and the fclient response / request unmarshallers. (ii) all byte strings up to a length over token alphabets and all single-byte corruptions of valid texts through CanonicalJSON, EnforcedCanonicalJSON, CompactJSON, SortJSON, VerifyJSON, ListKeyIDs, ServerKeys / CheckKeys, ParseAuthorization, identifier parsers and the event parsers. Oracle: no panic.")
 	r.Assume("panics documented for caller errors (nil querier / verifier / context, fewer than two state sets) are excluded by construction", "goroutines started by the library are not observed by recover (none are started on these paths)")
 	r.OnReplay("event", func(raw json.RawMessage) error {
 		var in caseInput
@@ -611,7 +611,20 @@ func run(r *harness.Run) {
 			jobs = append(jobs, job{env, b, nil, single})
 			for _, fl := range fields {
 				for _, val := range fl.Menu {
-					jobs = append(jobs, job{env, b, []sub{{fl.Path, val}}, single})
+					jobs = append(jobs, job{env, b, []sub{{Path: fl.Path, Val: val}}, single})
+				}
+			}
+			// a member sent twice, the extra copy before / after the genuine one (reduced menus; top-level members and the
+			// direct members of content)
+			for _, fl := range fields {
+				if strings.Count(fl.Path, "/") > 1 {
+					continue
+				}
+				for _, val := range fl.Core {
+					if val == absent {
+						continue
+					}
+					jobs = append(jobs, job{env, b, []sub{{Path: fl.Path, Val: val, Dup: 1}}, single}, job{env, b, []sub{{Path: fl.Path, Val: val, Dup: 2}}, single})
 				}
 			}
 			if (r.Quick() && !quickPairVers[v]) || os.Getenv("C18_NO_PAIRS") != "" {
@@ -628,7 +641,7 @@ func run(r *harness.Run) {
 					}
 					for _, v1 := range m1 {
 						for _, v2 := range m2 {
-							jobs = append(jobs, job{env, b, []sub{{f1.Path, v1}, {f2.Path, v2}}, 0})
+							jobs = append(jobs, job{env, b, []sub{{Path: f1.Path, Val: v1}, {Path: f2.Path, Val: v2}}, 0})
 						}
 					}
 				}
